@@ -108,7 +108,7 @@ def step (st : St) (line : String) : St × String :=
   | ["zip", ss] =>
     match getSessions st ss with
     | some sessions =>
-      match (if Sm.Gen.zipNameConsultsBuffer then zipSessionsPatched none sessions else zipSessions none sessions) with
+      match (if Sm.Gen.zipNameConsultsBuffer then zipSessions none sessions else zipSessionsOld none sessions) with
       | .ok (some z) => ({ st with coll := .zip z }, "ok refused=")
       | .ok none => ({ st with coll := .none }, "ok refused=")
       | .err e => ({ st with coll := .failed }, "err " ++ e.name)
@@ -168,6 +168,21 @@ def step (st : St) (line : String) : St × String :=
       | some rows => (st, s!"ok {rows.length} {(locations rows).length}")
       | none => (st, "ok none")
     | _ => (st, "ok -")
+  | ["rebuild"] =>
+    match st.coll with
+    | .zip z => (st, bag ((zipRebuildManifest z).map (showRow true)))
+    | _ => (st, "ok -")
+  | ["load", "standalone-sql"] =>
+    -- a `sig collect -F sql` style manifest: every row points at the collection
+    let atColl (rows : List Row) : List Row := sqlManifestKeep (rows.map fun r => { r with loc := some (.other 0) })
+    match st.coll with
+    | .zip z => match zipManifest z with
+      | some rows => (st, showRes (fun l => lst ((standaloneLoad (atColl rows) l).map (showSig true))) (zipLoad z))
+      | none => (st, "ok -")
+    | .dir d => (st, showRes (fun l => bag ((standaloneLoad (atColl (dirManifest d)) l).map (showSig true))) (multiIndexLoad (dirLoad d)))
+    | .sigfile l => (st, showRes (fun l => lst ((standaloneLoad (atColl (l.map fun s => mkRow s none)) l).map (showSig true))) (multiIndexLoad l))
+    | .sql db => (st, lst ((standaloneLoad (atColl (sqlManifest db)) (sqlLoad db)).map (showSig true)))
+    | _ => (st, "ok -")
   | ["load", _how] =>
     -- every way of reloading goes through the same collection object (the standalone manifest and the
     -- path list defer to the generic loader on the collection's path)
@@ -177,7 +192,7 @@ def step (st : St) (line : String) : St × String :=
     | .dir d => (st, showRes (fun l => bag (l.map (showSig true))) (multiIndexLoad (dirLoad d)))
     | .sigfile l => (st, showRes (fun l => lst (l.map (showSig true))) (multiIndexLoad l))
     | .sql db => (st, lst ((sqlLoad db).map (showSig true)))
-    | .lca db => (st, bag (db.signatures.map (showSig false)))
+    | .lca db => (st, bag ((db.signatures Sm.Gen.lcaYieldsEmpty).map (showSig false)))
     | _ => (st, "ok -")
   | ["len"] =>
     match st.coll with
